@@ -2547,10 +2547,10 @@ fn build_agg_array(
             DataType::Float64 => {
                 let mut builder = Float64Builder::with_capacity(num_groups);
                 for states in groups.values() {
-                    let sum: f64 = states[agg_idx]
-                        .distinct_set
-                        .as_ref()
-                        .map(|s| {
+                    // SUM over no non-NULL value is NULL, not 0 (the set is only
+                    // created by the first non-NULL input).
+                    match states[agg_idx].distinct_set.as_ref().filter(|s| !s.is_empty()) {
+                        Some(s) => builder.append_value(
                             s.iter()
                                 .map(|v| match v {
                                     GroupValue::Float64(x) => x.into_inner(),
@@ -2558,10 +2558,10 @@ fn build_agg_array(
                                     GroupValue::Date32(x) => *x as f64,
                                     _ => 0.0,
                                 })
-                                .sum()
-                        })
-                        .unwrap_or(0.0);
-                    builder.append_value(sum);
+                                .sum(),
+                        ),
+                        None => builder.append_null(),
+                    }
                 }
                 return Ok(Arc::new(builder.finish()));
             }
@@ -2569,10 +2569,8 @@ fn build_agg_array(
                 // Int64 and other integer types
                 let mut builder = Int64Builder::with_capacity(num_groups);
                 for states in groups.values() {
-                    let sum: i64 = states[agg_idx]
-                        .distinct_set
-                        .as_ref()
-                        .map(|s| {
+                    match states[agg_idx].distinct_set.as_ref().filter(|s| !s.is_empty()) {
+                        Some(s) => builder.append_value(
                             s.iter()
                                 .map(|v| match v {
                                     GroupValue::Int64(x) => *x,
@@ -2580,10 +2578,10 @@ fn build_agg_array(
                                     GroupValue::Float64(x) => x.into_inner() as i64,
                                     _ => 0,
                                 })
-                                .sum()
-                        })
-                        .unwrap_or(0);
-                    builder.append_value(sum);
+                                .sum(),
+                        ),
+                        None => builder.append_null(),
+                    }
                 }
                 return Ok(Arc::new(builder.finish()));
             }
